@@ -88,15 +88,24 @@ CharCount(s) == Len(Chars(s))
 \* with lead byte 195 (U+00C0..U+00DE <-> U+00E0..U+00FE, minus the
 \* multiplication and division signs).  CaseModelled says whether every
 \* character of s is one whose Go mapping this table reproduces.
+\* Three letters whose other case is encoded in another number of bytes: dotless i (2 bytes) -> I, long s (2) -> S,
+\* turned a (2) <-> turned A (3).
+DotlessI == <<196, 177>>
+LongS == <<197, 191>>
+TurnedA == <<201, 144>>
+TurnedCapA == <<226, 177, 175>>
 UpChar(c) ==
+  IF c = DotlessI THEN <<73>> ELSE IF c = LongS THEN <<83>> ELSE IF c = TurnedA THEN TurnedCapA ELSE
   IF Len(c) = 1 /\ c[1] >= 97 /\ c[1] <= 122 THEN <<c[1] - 32>>
   ELSE IF Len(c) = 2 /\ c[1] = 195 /\ c[2] >= 160 /\ c[2] <= 190 /\ c[2] # 183 THEN <<195, c[2] - 32>>
   ELSE c
 DownChar(c) ==
+  IF c = TurnedCapA THEN TurnedA ELSE
   IF Len(c) = 1 /\ c[1] >= 65 /\ c[1] <= 90 THEN <<c[1] + 32>>
   ELSE IF Len(c) = 2 /\ c[1] = 195 /\ c[2] >= 128 /\ c[2] <= 158 /\ c[2] # 151 THEN <<195, c[2] + 32>>
   ELSE c
 CaseModelledChar(c) ==
+  \/ c \in {DotlessI, LongS, TurnedA, TurnedCapA}
   \/ Len(c) = 1 /\ c[1] < 128
   \/ Len(c) = 2 /\ c[1] = 195 /\ c[2] >= 128 /\ c[2] <= 190
   \/ Len(c) = 4 /\ c[1] = 240 /\ c[2] = 159          \* emoji plane: no case
